@@ -248,9 +248,10 @@ fn deep_parse(bytes: &[u8], level: usize) {
     }
 }
 
-fn pick_indices(n: usize) -> Vec<usize> {
-    // every index for small n; first/last/spread for large n (tbs construction copies the payload)
-    if n <= 12 {
+fn pick_indices_for(n: usize, handed: usize) -> Vec<usize> {
+    // every index as long as the harness stays linear-ish (each helper call copies the payload and
+    // headers: n x bytes handed in <= 4 MiB); otherwise first / last / spread indices
+    if n <= 12 || n.saturating_mul(handed.max(1)) <= (4 << 20) {
         (0..n).collect()
     } else {
         let mut v = vec![0, 1, 2, n / 4, n / 2, 3 * n / 4, n - 3, n - 2, n - 1];
@@ -268,7 +269,7 @@ fn decrypt_result(ok: bool) -> impl Fn(&[u8], &[u8]) -> Result<Vec<u8>, String> 
 }
 
 fn recipients_followup(st: &mut RunStats, ep: &str, rs: &[coset::CoseRecipient], aad: &[u8], ok: bool, handed: usize, depth: usize) -> Result<(), Violation> {
-    for i in pick_indices(rs.len()) {
+    for i in pick_indices_for(rs.len(), handed) {
         let r = &rs[i];
         if r.ciphertext.is_some() {
             for ctx in [coset::EncryptionContext::EncRecipient, coset::EncryptionContext::MacRecipient, coset::EncryptionContext::RecRecipient] {
@@ -322,7 +323,7 @@ fn followups(st: &mut RunStats, ep: &Endpoint, d: &Decoded, len: usize, aad: &[u
             }
         }
         Decoded::Sign(m) => {
-            for i in pick_indices(m.signatures.len()) {
+            for i in pick_indices_for(m.signatures.len(), handed) {
                 op(st, "tbs_data", n, handed, || {
                     let _ = m.tbs_data(aad, &m.signatures[i]);
                 })?;
@@ -410,7 +411,7 @@ impl Engine for C01 {
             assumptions: &[
                 "'ordinary thread stack' = Rust's default 2 MiB for spawned threads, release-profile code generation (overflow checks and debug assertions on)",
                 "'memory proportional to the input' = peak live <= 64 KiB + 1024 x bytes handed in and cumulative <= 64 KiB + 4096 x bytes handed in, per operation (measured worst legitimate shapes: COSE_Sign with 10^4 minimal signers 206x live / 432x cumulative, ~270x / ~550x at the worst Vec-doubling point; margins ~4x and ~7x)",
-                "signer indices: every index up to 12 signers/recipients, otherwise 9 spread indices (tbs construction copies the payload, so all-indices would be quadratic in the harness)",
+                "signer / recipient indices: every index while (count x bytes handed in) <= 4 MiB, otherwise 9 spread indices (each helper call copies payload and headers, so all indices on large inputs would make the harness quadratic)",
                 "sampled neighbourhood of valid traffic and the nesting axes, not all byte strings; inputs up to 64 KiB (quick) / 1 MiB (thorough)",
                 "std-feature configuration: the same engine built with coset/std runs a quarter of the run indices again",
             ],
